@@ -5,7 +5,7 @@
 id="$1"; pkg="$2"; rx="$3"
 src=/tmp/out-$id
 wt=/tmp/wt-confirm-$$
-export GOFLAGS=-mod=mod GOPROXY=off GOSUMDB=off GOTOOLCHAIN=local
+export PATH=/root/go/pkg/mod/golang.org/toolchain@v0.0.1-go1.24.2.linux-amd64/bin:$PATH GOFLAGS=-mod=mod GOPROXY=off GOSUMDB=off GOTOOLCHAIN=local
 git -C /repo worktree add -q $wt HEAD || exit 9
 cd $wt
 res="id=$id"
